@@ -43,8 +43,10 @@ func (s *srcWatch) ResultChan() <-chan watch.Event { return s.ch }
 
 var watchPanics int32
 
-func init() {
-	// a panic of the relay goroutine would take the process down; record it instead
+// catchRelayPanics: a panic of the relay goroutine would take the process down; record it instead. Only the watch
+// driver does this - everywhere else apimachinery's crash handling must stay as in production (a simulated process
+// death travels as a panic through retry loops that call HandleCrash).
+func catchRelayPanics() {
 	utilruntime.ReallyCrash = false
 	utilruntime.PanicHandlers = append(utilruntime.PanicHandlers, func(interface{}) { atomic.AddInt32(&watchPanics, 1) })
 }
@@ -217,6 +219,7 @@ func cmdWatch(args []string) {
 	fs.Parse(args)
 	os.MkdirAll(*out, 0o755)
 	silenceKlog()
+	catchRelayPanics()
 	if *one != "" {
 		var ops []string
 		json.Unmarshal([]byte(*one), &ops)
